@@ -72,17 +72,36 @@ CurriedRuns(tps) ==
         LET n == ((k - 1) \div Len(tps))  tp == tps[((k - 1) % Len(tps)) + 1]
         IN RunArgs(GP, "P", << <<"i", n>> >>, tp[1], tp[2])]
 
+(* which rule module-level parse() starts with: the first rule whose name is "start" in any capitalisation,    *)
+(* else the first rule of the description; only an explicit start rule gets the leading skip of ignored text  *)
+StartNames == {"start", "Start", "START", "sTaRt"}
+Detect(order) == IF \E k \in 1..Len(order) : order[k] \in StartNames
+                 THEN order[CHOOSE k \in 1..Len(order) : order[k] \in StartNames /\ \A j \in 1..(k - 1) : order[j] \notin StartNames]
+                 ELSE ""
+SD(i) ==    \* <<rules, order of definition>>
+    CASE i = 1 -> << [Aa |-> Rule(Plus(A1)), Start |-> Rule(Seq2(Ref("Aa"), Opt(B1))), Bb |-> Rule(Star(B1))], <<"Aa", "Start", "Bb">> >>
+      [] i = 2 -> << [Bb |-> Rule(Seq2(Star(B1), Opt(Ref("Aa")))), Aa |-> Rule(Plus(A1))], <<"Bb", "Aa">> >>          \* no start rule
+      [] i = 3 -> << [Aa |-> Rule(Plus(A1)), START |-> Rule(Seq2(B1, Ref("Aa"))), start |-> Rule(A1)], <<"Aa", "START", "start">> >>
+      [] i = 4 -> << [Zz |-> Class(<<Field("v", Opt(A1))>>), sTaRt |-> Class(<<Field("x", Ref("Zz")), Field("y", Star(B1))>>)], <<"Zz", "sTaRt">> >>
+GS(i, ign) == [rules |-> SD(i)[1], ign |-> IF ign THEN <<Rgx(RxPlus(Cls(<<sp>>)))>> ELSE <<>>, start |-> Detect(SD(i)[2])]
+ModEntry(i) == IF Detect(SD(i)[2]) = "" THEN SD(i)[2][1] ELSE Detect(SD(i)[2])
+
 VARIABLES gi, en, done
 vars == <<gi, en, done>>
 
 Init == /\ \/ (gi \in 1..5 /\ en \in 1..Len(Entries(gi)))
            \/ (gi \in {6, 7} /\ en = 1)           \* 6: curried class entry, unnamed; 7: the same in a named grammar
+           \/ (gi \in 11..18 /\ en = 1)          \* start-rule detection: SD(1..4) without / with ignore
         /\ done = FALSE
 
 Step == /\ ~done
         /\ done' = TRUE
         /\ UNCHANGED <<gi, en>>
-        /\ IF gi \in {6, 7}
+        /\ IF gi >= 11
+           THEN LET i == ((gi - 11) % 4) + 1  ign == gi >= 15 IN
+                EmitCasePos(GS(i, ign), [prop |-> "C08", order |-> SD(i)[2], module_entry |-> ModEntry(i)],
+                            <<ModEntry(i)>>, AllPos(TextSeqUpTo(IF ign THEN <<a, b, sp>> ELSE <<a, b>>, 3), 1, 0))
+           ELSE IF gi \in {6, 7}
            THEN PrintT(ToJson([g |-> GP, cfg |-> IF gi = 7 THEN [prop |-> "C08", name |-> "vg_c08"] ELSE [prop |-> "C08"],
                                runs |-> CurriedRuns(AllPos(TextSeqUpTo(<<a, b>>, 3), 1, 0))]))
            ELSE EmitCasePos(Grammar(gi), IF gi = 5 THEN [prop |-> "C08", bytes |-> TRUE] ELSE [prop |-> "C08"],
